@@ -115,3 +115,13 @@ Definition same_bytes (c : case) : bool :=
     match seal ver m (puts xxh64 sigs) with Ok f' => list_eqb f' (expand gofile) | _ => false end
   | _ => true
   end.
+
+(* decidable well-formedness of signatures (used by the non-vacuity examples) *)
+Definition wf_sigb (s : list N) : bool := Nat.eqb (length s) 64 && forallb (fun b => b <? 256) s.
+Lemma wf_sigs_sound (sigs : list (list N)) : forallb wf_sigb sigs = true -> Forall wf_sig sigs.
+Proof.
+  intros H. apply Forall_forall. intros s Hs. rewrite forallb_forall in H. specialize (H s Hs).
+  unfold wf_sigb in H. apply andb_prop in H. destruct H as [H1 H2]. split.
+  - now apply Nat.eqb_eq.
+  - apply Forall_forall. intros b Hb. rewrite forallb_forall in H2. specialize (H2 b Hb). now apply N.ltb_lt.
+Qed.
